@@ -328,7 +328,7 @@ class ctx:
         Check if current asyncio task is cancelled, raises CancelledError if so.
         """
 
-        if (task := current_task()) and task.cancelled():
+        if (task := current_task()) and task.cancelling() > 0:
             raise CancelledError()
 
     @staticmethod
